@@ -1,4 +1,7 @@
 import TempestVerif.Model.Records
+import TempestVerif.Model.Ess
+import TempestVerif.Model.Trim
+import TempestVerif.Model.Resample
 /-
   Model of `SamplerCore.compute_posterior` (C12): which arrays are gathered in the trimming and in the
   resampling branch comes from `Gen/Tables.lean` (regenerated from source) and is passed in as field lists.
@@ -52,5 +55,41 @@ def returnNames (haveBlobs : Bool) (o : Opts) : List String :=
     (if o.returnLogw then ["x", "weights", "logl", "blobs", "logw"] else ["x", "weights", "logl", "blobs"])
   else
     (if o.returnLogw then ["x", "weights", "logl", "logw"] else ["x", "weights", "logl"])
+
+/-! ### the whole `compute_posterior`, with the modelled `trim_weights` (C20) and `systematic_resample` (C06)
+
+      logw, logz = self.state.compute_logw_and_logz(1.0)
+      weights = np.exp(logw - np.max(logw)); weights /= np.sum(weights)
+      if trim_importance_weights:
+          idx, weights = trim_weights(np.arange(len(weights)), weights, ess=ess_trim, bins=bins_trim);  <gathers>
+      if resample:
+          idx = systematic_resample(len(weights), weights);  <gathers>;  weights = np.ones(len(idx)) / len(idx)
+
+  `a.lw` is the vector returned by `compute_logw_and_logz(1.0)` (C04/C11), `u0` the value of `np.random.random()`. -/
+section full
+variable {α : Type} [ScT α]
+
+/-- `np.exp(logw - np.max(logw))` of the non-empty vector `x :: xs` -/
+def expShift (x : α) (xs : List α) : List α :=
+  let m := Model.Ess.maxOf x xs
+  (x :: xs).map fun l => ScT.exp (Sc.sub l m)
+
+/-- the importance weights before trimming; `none` = the `ValueError` of `np.max` on an empty history -/
+def weights0 : List α → Option (List α)
+  | [] => none
+  | x :: xs => some (Model.Ess.normalise (expShift x xs))
+
+/-- `np.ones(n) / n` -/
+def uniformW (n : Nat) : List α := List.replicate n (Sc.div Sc.one (Sc.ofNat n))
+
+def posterior (trimFields resFields : List String) (essTrim : α) (bins : Nat) (u0 : α) (o : Opts)
+    (a : Arrs X L B α α) : Option (Arrs X L B α α) :=
+  (weights0 a.lw).bind fun w0 =>
+  (if o.trim then Model.Trim.trim (List.range w0.length) w0 essTrim bins else some ([], [])).bind fun t =>
+  let w1 := if o.trim then t.2 else w0
+  (if o.resample then Model.Resample.systematic w1.length w1 u0 else some []).bind fun ridx =>
+  body trimFields resFields (fun _ => t) (fun _ => ridx) uniformW o { a with w := w0 }
+
+end full
 
 end Model.Posterior
